@@ -130,8 +130,9 @@ class Assertion:
         resp = {"clientDataJSON": b64u(self.cdj), "authenticatorData": b64u(self.ad), "signature": b64u(self.sig)}
         if self.user_handle is not None:
             resp["userHandle"] = b64u(self.user_handle)
+        import copy
         d = {"id": self.id_text, "rawId": b64u(self.cred_id), "response": resp, "type": self.typ,
-             "clientExtensionResults": {}}
+             "clientExtensionResults": copy.deepcopy(getattr(self, "client_ext", None) or {})}
         if self.attachment is not None:
             d["authenticatorAttachment"] = self.attachment
         return d
@@ -205,3 +206,13 @@ def p256_cred_with_x_prefix(prefix=b"\x04", kind="ES256-P256"):
                 return k
             d += 1
     return Cred(kind, sk=_load_or_make("ec_p256_x_prefix_" + prefix.hex(), make))
+
+
+def rsa_cred_bits(bits, kind="RS256"):
+    """An RSA credential with a modulus of exactly `bits` bits (sizes that are not multiples of 8 / unusually large ones)."""
+    def make():
+        while True:
+            k = rsa.generate_private_key(65537, bits)
+            if k.public_key().public_numbers().n.bit_length() == bits:
+                return k
+    return Cred(kind, sk=_load_or_make(f"rsa_{bits}", make))
